@@ -123,7 +123,13 @@ func (c *Ctx) usedResults(rule string, fn *ssa.Function) {
 					used = true
 				}
 			}
-			c.R.Check(used, rule, name(f), strings.TrimPrefix(key, name(f)+":"), c.IPos(call),
+			construct := strings.TrimPrefix(key, name(f)+":")
+			if !used {
+				// a discard is identified by what is dropped, not by the helper that read it
+				dk := ordinalKey(counts, name(fn)+":discard:"+strings.ReplaceAll(rs.At(0).Type().String(), M+"/", ""))
+				construct = strings.TrimPrefix(dk, name(fn)+":")
+			}
+			c.R.Check(used, rule, name(fn), construct, c.IPos(call),
 				"data consumed by a sub-decoder must be kept (its value result is used)",
 				"the decoded value is discarded: the bytes were consumed from the stream but are dropped from the result, so re-encoding cannot reproduce the input")
 		})
